@@ -556,6 +556,6 @@ def run_case(case: dict[str, Any]) -> Outcome:
 
 
 def main(chk: Check) -> None:
-    chk.explore("histories", cases, run_case, quick=800, thorough=20000)
+    chk.explore("histories", cases, run_case, quick=1600, thorough=20000)
     if not chk.quick or chk.replay is not None:
-        chk.explore("subprocess", sub_cases, run_case, quick=8, thorough=96)
+        chk.explore("subprocess", sub_cases, run_case, quick=16, thorough=96)
